@@ -240,7 +240,7 @@ def _enum_cases(max_nodes, index, count):
             for stop in shapes.subsets(sub):
                 for hide in shapes.subsets(sub):
                     for maxlevel in [None] + list(range(0, height + 3)):
-                        yield {"shape": forest.to_list(shape), "names": names, "start": start, "stop": stop, "hide": hide, "maxlevel": maxlevel, "truth": k, "positional": k % 4 == 0, "indent": k % 3, "cls": ("Node", "EqNode", "Node", "FalsyNode", "LenNode")[k % 5]}
+                        yield {"shape": forest.to_list(shape), "names": names, "start": start, "stop": stop, "hide": hide, "maxlevel": maxlevel, "truth": k, "positional": k % 4 == 0, "indent": k % 3, "cls": ("Node", "EqNode", "Link", "FalsyNode", "LenNode")[k % 5]}
 
 
 def _fraction_cases(max_nodes):
@@ -283,7 +283,7 @@ def random_cases(draw):
         "positional": draw(st.integers(0, 3)) == 0,
         "to_file": draw(st.integers(0, 9)) == 0 and not any(isinstance(n, str) and any(0xD800 <= ord(ch) <= 0xDFFF for ch in n) for n in names),
         "mutations": draw(strategies.tree_mutations(max_ops=2, rename_values=NAME)),
-        "cls": draw(st.sampled_from(["Node", "Node", "EqNode", "FalsyNode", "LenNode"])),
+        "cls": draw(st.sampled_from(["Node", "Node", "EqNode", "FalsyNode", "LenNode", "Link"])),
     }
     if draw(st.booleans()):
         funcs = {}
